@@ -5,8 +5,8 @@ THEOREM_MODULES = ["Hcl.Theorems.C17", "Hcl.Tie.Ops"]
 THEOREMS = {"Hcl.Tie.Ops": ["Tie.Ops.strictnessConsts", "Tie.Ops.defaultFeatures", "Tie.Ops.binopApplyText"], "Hcl.Theorems.C17": ["C17_eval_flag_independent"]}
 
 RULE = ("S-FEATURES: the harness (and with it hclrs) is rebuilt per strictness feature set (quick: default, none, all, "
-        "each of strict-wire-widths-binary / strict-boolean-ops alone; thorough: all 32 subsets); each build reports its "
-        "features through a hook and runs the well-typed and the width-mutated S-EXPR streams; the Lean model and the "
+        "each of the five options alone; thorough: all 32 subsets); each build reports its "
+        "features through a hook and runs the well-typed and the mutated S-EXPR streams (one width perturbed, or the shape of a case expression / boolean operand changed: two defaults, an arm after the default, no default, no arm, a 0- or 2-bit boolean operand); the Lean model and the "
         "specification are run with the same flags. Correspondence: accept/reject + diagnostics kinds + values equal the "
         "model's; oracle: accept/reject and values equal the specification's (whose values do not depend on the flags). "
         "distinct = distinct (feature set, program text).")
@@ -26,7 +26,7 @@ def judge_for(tag):
 
 def streams(tier, seed):
     if tier == "quick":
-        sets = [None, [], F, [F[0]], [F[1]]]
+        sets = [None, [], F, [F[0]], [F[1]], [F[2]], [F[3]], [F[4]]]
         n1, n2 = 600, 900
     else:
         sets = [None] + [[F[i] for i in range(5) if (m >> i) & 1] for m in range(32)]
